@@ -207,17 +207,19 @@ class Tree(object):
             root.adjust(float(spec["seed_before_setup"]))
             self.adjust_log.append((0, (), float(spec["seed_before_setup"]), True))
         root.setup(self.data, **kw)
+        # a run that starts late: the tree's first update is not on the first row of its data
+        self.i = int(spec.get("start_row", 0))
         cap = float(spec.get("capital", 64.0))
         if cap:
             root.adjust(cap)
-            self.adjust_log.append((0, (), cap, True))
-        root.update(self.dates[0])
+            self.adjust_log.append((self.i, (), cap, True))
+        root.update(self.dates[self.i])
         # optional: fund sub-strategies on the first date so that trades inside them are
         # not refused by the zero-base guard (an unfunded variant is explored as well)
         for path, child, amt in spec.get("prefund", []):
             self.node(path).allocate(float(amt), child=child)
         if spec.get("prefund"):
-            root.update(self.dates[0])
+            root.update(self.dates[self.i])
         # optional: start the exploration from a non-initial state
         for op in spec.get("preops", []):
             self.apply(op)
